@@ -118,6 +118,16 @@ def _table(ctx) -> None:
                             f"column's own dtype (a sorted table must not change schema)")
         empty_ok = data[0] == "obj" and it.objs[data[1]].kind == "list" and not it.objs[data[1]].init and not elements(it, data) \
             and any(c == ("cmp", "Eq", nrows, const(0)) and pol for c, pol in r.conds)
+        if not empty_ok and data[0] == "obj" and any(c == ("cmp", "Eq", nrows, const(0)) and pol for c, pol in r.conds):
+            # the same gather applied to an EMPTY list of positions (take_rows([]) for the table without rows): no element at all
+            de0 = elements(it, data)
+            if len(de0) == 1 and not it.objs[data[1]].init:
+                dl0 = [L for L in de0[0].loops if L not in e.loops]
+                if len(dl0) == 1:
+                    src0 = it.loops[dl0[0]].iter
+                    if src0 is not None and src0[0] == "obj" and it.objs[src0[1]].kind == "list" and not it.objs[src0[1]].init \
+                            and not elements(it, src0) and not it._mutated(src0):
+                        empty_ok = True
         if empty_ok:
             continue
         ok = False
